@@ -4,7 +4,8 @@
 (*    codes |-> the mapped codes that were decoded (byte strings),                                 *)
 (*    per   |-> lopdf's result for every code alone  [p |-> 0 ok / 1 panic / 2 error, chars],      *)
 (*    whole |-> lopdf's result for the concatenation of all codes,                                 *)
-(*    err   |-> "" or why get_font_encoding gave no UnicodeMapEncoding].                           *)
+(*    err   |-> "" or why get_font_encoding gave no encoding,                                     *)
+(*    sty   |-> the style of the rendering (CMap!sty), font |-> the /Encoding form next to /ToUnicode]. *)
 (* Only the declarative layer of CMap judges (Lookup, Text, WellFormed, Class).  4-byte codes are  *)
 (* represented as value - 2^31 (TLC integers are 32 bit); Lookup only compares and subtracts.      *)
 EXTENDS CMap, Json, IOUtils
@@ -41,8 +42,13 @@ Judge(rec) ==
                              u == TargetAt(defs[w], cs[i][2])
                          IN [cov |-> TRUE, units |-> u, exp |-> Text(u),
                              cls |-> CaseClassAt(defs, w, cs[i][1], cs[i][2]), bom |-> BomStart(u)]], 1, n)
+        \* the one respect in which the spelling / the font dictionary departs from the tolerated one (CMap!sty)
+        sty   == [k |-> rec.sty.k, a |-> rec.sty.a, b |-> rec.sty.b, s |-> rec.sty.s]
         inDom == /\ Len(defs) >= 1 /\ n >= 1 /\ BytesOK(rec.defs) /\ WellFormed(defs)
                  /\ \A i \in 1..n : info[i].cov
+                 /\ StyleLegal(sty) /\ rec.font \in FontForms
+                 /\ (sty.k = "font" => sty.a = rec.font)
+                 /\ (rec.font \in BaseForms => \A i \in 1..Len(defs) : defs[i].len = 1)
     IN
     IF ~inDom THEN [v |-> "outside-domain", bad |-> <<>>, cls |-> <<>>, w |-> "skip"]
     ELSE IF rec.err # "" THEN [v |-> "no-encoding", bad |-> <<>>, cls |-> <<>>, w |-> "skip"]
@@ -71,8 +77,10 @@ Judge(rec) ==
               ELSE IF BomStart(allUnits) THEN "bom" ELSE "bad"]
 
 Init == l = 1
+StyleClassOf(rec) == StyleClass([k |-> rec.sty.k, a |-> rec.sty.a, b |-> rec.sty.b, s |-> rec.sty.s])
 Next == /\ l <= Len(Recs)
-        /\ LET j == Judge(Recs[l]) IN PrintT(<<"VERDICT", ToJson([i |-> l, v |-> j.v, bad |-> j.bad, cls |-> j.cls, w |-> j.w])>>)
+        /\ LET j == Judge(Recs[l]) IN
+           PrintT(<<"VERDICT", ToJson([i |-> l, v |-> j.v, bad |-> j.bad, cls |-> j.cls, w |-> j.w, sc |-> StyleClassOf(Recs[l])])>>)
         /\ l' = l + 1
 Spec == Init /\ [][Next]_l
 Consumed == TLCGet("stats").diameter = Len(Recs) + 1
